@@ -618,9 +618,21 @@ func applyInner(o, d *Obj, c Call) (ret []string) {
 		for _, v := range c.Strs("xs") {
 			xs = append(xs, Conc(v))
 		}
+		// the batch is handed over as ONE slice with spare capacity, and compared afterwards: a call must leave its
+		// caller's slice alone (a filter that compacts the batch in place would corrupt it)
+		xs = append(make([]any, 0, len(xs)+2), xs...)
+		names := make([]string, len(xs))
+		for i, x := range xs {
+			names[i] = Proj(x)
+		}
 		o.S.Push(xs...)
 		if o.log != nil {
 			ret = append(ret, o.log...)
+		}
+		for i, x := range xs {
+			if Proj(x) != names[i] {
+				ret = append(ret, fmt.Sprintf("CALLER-SLICE-MODIFIED[%d]:%s->%s", i, names[i], Proj(x)))
+			}
 		}
 	case "Pop":
 		ret = valret(o.S.Pop())
